@@ -157,6 +157,9 @@ Definition parse_fuel : nat := 24.      (* nesting of struct / array rules *)
 (* python attribute name of a schema member (generator.name_formatting.fix_name) *)
 Definition py_name (n : string) : string := if String.eqb n "type" || String.eqb n "property" then n ++ "_" else n.
 
+(* str.encode('utf8') of a member that holds a str; anything else is left alone *)
+Definition encode_str (v : value) : value := match v with VStruct "str" [("utf8", VBytes s)] => VBytes s | x => x end.
+
 Definition vset (v : value) (n : string) (x : value) : value :=
   match v with VStruct c e => VStruct c (map (fun p => if String.eqb (fst p) n then (n, x) else p) e) | _ => v end.
 
@@ -383,8 +386,7 @@ Definition class_of_type (embedded : bool) (t : dval) : result string :=
   | _ => Reject
   end.
 (* _auto_encode_strings: top-level members only *)
-Definition auto_encode (e : list (string * value)) : list (string * value) :=
-  map (fun p => (fst p, match snd p with VStruct "str" [("utf8", VBytes s)] => VBytes s | x => x end)) e.
+Definition auto_encode (e : list (string * value)) : list (string * value) := map (fun p => (fst p, encode_str (snd p))) e.
 
 Definition create_from_factory (embedded : bool) (d : descriptor) : result value :=
   match assoc type_key d with
@@ -482,8 +484,7 @@ Definition sym_extend (ident : Z) (v : value) : result value :=
 
 (* ---------- nem: the transfer message hack ---------- *)
 Definition encode_member (n : string) (e : list (string * value)) : list (string * value) :=
-  map (fun p => if String.eqb (fst p) n
-                then (fst p, match snd p with VStruct "str" [("utf8", VBytes s)] => VBytes s | x => x end) else p) e.
+  map (fun p => if String.eqb (fst p) n then (fst p, encode_str (snd p)) else p) e.
 Definition nem_extend (v : value) : result value :=
   match enum_member "TransactionType" "TRANSFER" with
   | Some t_tr =>
